@@ -161,8 +161,10 @@ func c08R2(p *core.Prog, r *core.Report) {
 	}
 }
 
-func c08R3(p *core.Prog, r *core.Report) {
-	const rule = "C08/R3"
+func c08R3(p *core.Prog, r *core.Report) { loadAlignRule(p, r, "C08/R3") }
+
+// loadAlignRule is shared by C08/R3 and C07/R4 (reader half).
+func loadAlignRule(p *core.Prog, r *core.Report, rule string) {
 	r.Rule(rule, "LoadAofFile: a record's value blob is read before the record can be skipped, and a failed value read ends the load without the callback", 2)
 	fn := mustFunc(p, r, "server.(*Aof).LoadAofFile")
 	if fn == nil {
@@ -232,7 +234,7 @@ func c08R3(p *core.Prog, r *core.Report) {
 	ex.NoHist = true
 	ex.Run(fn, nil)
 	if ex.Imprecise != "" {
-		r.Fail("C08/R3: %s", ex.Imprecise)
+		r.Fail("%s: %s", rule, ex.Imprecise)
 	}
 }
 
